@@ -171,6 +171,8 @@ pub struct PeerPlan {
     pub connack_props: crate::refcodec::Props,
     pub connack_session_present: bool,
     pub script: Vec<PeerStep>,
+    /// script of the peer of the second connection (empty: same as `script`)
+    pub script2: Vec<PeerStep>,
     /// the peer acknowledges what the endpoint sends (PUBLISH/PUBREL/SUBSCRIBE/UNSUBSCRIBE/PINGREQ)
     pub auto_ack: bool,
     pub deviation: AckDeviation,
@@ -209,6 +211,14 @@ pub enum AppOp {
     CloseReason(u8),
     CloseNoReason,
     ForceClose,
+    /// two close calls back to back: close_with_reason(code) then close() (v3: close twice)
+    CloseTwice(u8),
+}
+
+impl PeerPlan {
+    pub fn script_of(&self, conn: usize) -> &Vec<PeerStep> {
+        if conn == 1 && !self.script2.is_empty() { &self.script2 } else { &self.script }
+    }
 }
 
 impl AppOp {
